@@ -75,7 +75,8 @@ Crisis_Invariant == ~obs.invBroken
 Clauses ==
   [C05_StakeSum |-> C05_StakeSum(st),
    C05_Escrow |-> C05_Escrow(st),
-   C05_UnstakeNeverFails |-> C05_UnstakeNeverFails(pre, ev),
+   C05_UnstakeNeverFails |-> C05_UnstakeNeverFails(pre, ev) /\ C05_UnstakeNeverFailsH(ev, gh),
+   C05_StakeLedger |-> C05_StakeLedger(st, gh),
    C05_UnstakeExact |-> C05_UnstakeExact(pre, ev, st),
    C05_StakeExact |-> C05_StakeExact(pre, ev, st),
    C05_OthersUntouched |-> C05_OthersUntouched(pre, ev, st),
@@ -90,7 +91,8 @@ Clauses ==
    C06_Flows |-> C06_Flows(pre, ev, st),
    C06_Rate |-> C06_Rate(pre, ev, st),
    C06_TouchAccrues |-> C06_TouchAccrues(pre, ev, st),
-   C06_RefundOnce |-> C06_RefundOnce(pre, ev, st, gh),
+   C06_RefundOnce |-> C06_RefundOnce(pre, ev, st, gh) /\ C06_EndedEmpty(st),
+   C06_RateSet |-> C06_RateSet(st, gh),
    C13_QueueSound |-> C13_QueueSound(st),
    C13_QueueComplete |-> C13_QueueComplete(st, gh),
    C13_OnceOnTime |-> C13_OnceOnTime(pre, ev, st, gh),
